@@ -156,18 +156,15 @@ const (
 )
 
 type expectation struct {
-	kind   string
-	final  string   // the finally resolved name
-	chain  []string // CNAME targets followed, in order (empty: none)
-	vals   []netip.Addr
-	why    string
-	excHop bool // oCnameUp because of an exception entry at a later hop
+	kind  string
+	final string   // the finally resolved name
+	chain []string // CNAME targets followed, in order (empty: none)
+	vals  []netip.Addr
+	why   string
 	// the deciding address level is a wildcard pattern that also carries the
 	// pass-through exception of the other family.
 	wildOtherExc bool
-	// a CNAME answer on the path is spelled with upper-case letters.
-	caseFold bool
-	tags     []string
+	tags         []string
 }
 
 func (e *expectation) tag(s string) { e.tags = append(e.tags, s) }
@@ -239,18 +236,16 @@ func resolve(table []Entry, qname string, qtype uint16) (ex *expectation) {
 				return ex
 			}
 			t := strings.ToLower(ts[0])
-			if t != ts[0] {
-				// Host names compare case-insensitively.
-				ex.caseFold = true
-				ex.tag("cname_answer_mixed_case")
-			}
 			if t == cl.pat || t == cur {
 				// "name to itself": pass-through exception.
 				ex.tag("self_reference")
 				if len(ex.chain) == 0 {
 					ex.kind, ex.why = oPassExc, "entry "+cl.pat+" -> "+ts[0]+" maps the name to itself"
 				} else {
-					ex.kind, ex.why, ex.excHop = oCnameUp, "canonical name "+cur+" has a name-to-itself entry", true
+					// What an exception met at a later hop of a chain does to
+					// the whole request is not fixed by the documentation.
+					ex.kind, ex.why = oUnspecified, "canonical name "+cur+" has a name-to-itself entry (exception at a later hop)"
+					ex.tag("unspecified_exception_at_later_hop")
 				}
 				return ex
 			}
@@ -303,7 +298,8 @@ func resolve(table []Entry, qname string, qtype uint16) (ex *expectation) {
 			if len(ex.chain) == 0 {
 				ex.kind, ex.why = oPassExc, l0.pat+" has the "+dns.TypeToString[qtype]+" exception"
 			} else {
-				ex.kind, ex.why, ex.excHop = oCnameUp, "canonical name "+cur+" has the "+dns.TypeToString[qtype]+" exception", true
+				ex.kind, ex.why = oUnspecified, "canonical name "+cur+" has the "+dns.TypeToString[qtype]+" exception (exception at a later hop)"
+				ex.tag("unspecified_exception_at_later_hop")
 			}
 		case len(vals) > 0:
 			ex.kind, ex.vals, ex.why = oLocal, vals, "values of "+l0.pat
